@@ -29,19 +29,22 @@ RULE = (
     "configuration = (simfile kind, version, chart kind, state of each of the 11 chart timing properties, OFFSET and "
     "DISPLAYBPM state on simfile and chart, ignore_specified); chart-less / SM-chart configurations count once (their "
     "chart-side dimensions do not exist), so the core space has 2*7*(2+3^11) = 2 480 086 members and the whole space "
-    "core x 81 side states x 2. Part 'sparse-core-all-sides' (both tiers, complete): every core configuration with at "
-    "most two non-absent chart timing properties x all 81 side states x both ignore_specified values. Part "
-    "'all-core' (thorough tier, complete over the core space): every core configuration, each with all 9 OFFSET "
-    "states and all 9 DISPLAYBPM states x both ignore_specified values, the two 9-state dimensions paired by an "
-    "index-derived rotation (so core x OFFSET-states and core x DISPLAYBPM-states x ignore are complete, their "
-    "product is rotated, 18 of the 162 side members per core configuration). Enumerated parts use fixed recognisable "
-    "values, DISPLAYBPM class rotating with the index. Part 'sampled' (Hypothesis; 60 000 configurations in the quick tier, three per case sharing one set of values): whole-space indices drawn "
-    "uniformly or with a sparse pattern, values random within syntactic classes (timing lists of 1-4 events with "
-    "distinct values, DISPLAYBPM one number / two numbers / '*' / malformed), objects built by assignment or by "
-    "parsing a rendered SSC/SM text, simfile lists optionally absent. Simfile and chart always carry disjoint values. "
-    "Non-trivial = an SSC chart is supplied (two candidate sources whose observable values differ, the rule decides); "
-    "distinct = distinct whole-space index (enumerated) / distinct case JSON (sampled); one evaluation = one "
-    "TimingData construction or one displaybpm call compared with the oracle"
+    "core x 81 side states x 2. Enumerated parts, each complete over its core set ('exhaustive' refers to that): "
+    "'all sides' = all 81 side states x both ignore_specified values per core configuration; 'rotated' = all 9 OFFSET "
+    "states and all 9 DISPLAYBPM states x both ignore_specified values per core configuration, the two 9-state "
+    "dimensions paired by an index-derived rotation (core x OFFSET-states and core x DISPLAYBPM-states x ignore are "
+    "complete, their product is sampled: 18 of 162 members). quick tier: every core configuration with <= 1 non-absent "
+    "chart timing property, all sides (350 core); every core configuration with <= 2 non-absent properties, rotated "
+    "(3 430 core). thorough tier: <= 2 non-absent, all sides; every core configuration (2 480 086), rotated. "
+    "Enumerated parts use fixed recognisable values, the DISPLAYBPM class rotating with the index. Part 'sampled' "
+    "(Hypothesis; 60 000 configurations in the quick tier, three per case sharing one set of values): whole-space "
+    "indices drawn uniformly or with a sparse pattern, values random within syntactic classes (timing lists of 1-4 "
+    "events with distinct values, DISPLAYBPM one number / two numbers / '*' / malformed), objects built by assignment "
+    "or by parsing a rendered SSC/SM text, simfile lists optionally absent. Simfile and chart always carry disjoint "
+    "values. Non-trivial = an SSC chart is supplied (two candidate sources whose observable values differ, the rule "
+    "decides); distinct = distinct whole-space index (enumerated; a configuration met by two parts is counted once) / "
+    "distinct case JSON (sampled); one evaluation = one TimingData construction or one displaybpm call compared with "
+    "the oracle"
 )
 ASSUMPTIONS = [
     "CPython Fraction and Decimal are the reference for parsing 'beat=value' lists, offsets and DISPLAYBPM numbers",
@@ -89,8 +92,9 @@ SPARSE_P = sorted(
     | {a * POW3[i] for i in range(11) for a in (1, 2)}
     | {a * POW3[i] + b * POW3[j] for i in range(11) for j in range(i + 1, 11) for a in (1, 2) for b in (1, 2)}
 )
-NSPARSE_R = 2 + len(SPARSE_P)  # 245
-NSPARSE = 14 * NSPARSE_R  # 3430
+SPARSE1_P = sorted({0} | {a * POW3[i] for i in range(11) for a in (1, 2)})  # at most one non-absent property
+NSPARSE = 14 * (2 + len(SPARSE_P))  # 3430 core configurations with <= 2 non-absent chart timing properties
+NSPARSE1 = 14 * (2 + len(SPARSE1_P))  # 350 with <= 1
 
 
 def need(cond, msg):
@@ -364,46 +368,50 @@ def check(case):
 
     if kind_ == "chunk":
         lo, hi = case["lo"], case["hi"]
+        space, full = case["space"], case["sides"] == "full"
+        skip_upto = case["counted_elsewhere_upto"]  # cores with <= this many non-absent properties are counted by another part
         evals = 0
         nontriv = 0
-        if case["space"] == "sparse":
-            # index j over 14 * 245 sparse core configurations; all 81 (or 9 when chart-less) side states x 2
-            for j in range(lo, hi):
-                kv, rr = divmod(j, NSPARSE_R)
-                r = rr if rr < 2 else 2 + SPARSE_P[rr - 2]
+        for j in range(lo, hi):
+            if space == "all":
+                kind, ver, r = decode_core(j)
+                c = j
+            else:
+                pats = SPARSE1_P if space == "sparse1" else SPARSE_P
+                kv, rr = divmod(j, 2 + len(pats))
+                r = rr if rr < 2 else 2 + pats[rr - 2]
                 kind, ver = kv // 7, kv % 7
                 c = kv * CH + r
-                sides = range(81) if r >= 2 else [so + 9 * sd for sd in range(3) for so in range(3)]
-                for s in sides:
+            if r < 2:
+                # chart-less: the chart-side dimensions do not exist; 9 side states
+                for t in range(9):
+                    s = (t % 3) + 9 * (t // 3)
+                    a, b = fixed_dbpm(c, s)
+                    evals += judge(cx, kind, ver, r, s, (0, 1), SIM_FIXED, CH_FIXED, a, b, none_form=t & 1, route=(c + t) & 1 if full else 0)
+                continue
+            if full:
+                for s in range(81):
                     a, b = fixed_dbpm(c, s)
                     evals += judge(cx, kind, ver, r, s, (0, 1), SIM_FIXED, CH_FIXED, a, b, route=(c + s) & 1 if s % 5 == 0 else 0)
-                    if r >= 2:
-                        nontriv += 2
-            return Verdict(nontrivial=nontriv > 0, evals=evals, weight=nontriv, labels=("chunk:sparse-core-all-sides",))
-        # all core configurations; 9 OFFSET states and 9 DISPLAYBPM states, paired by rotation
-        for c in range(lo, hi):
-            kind, ver, r = decode_core(c)
-            shift = _hash9(c)
-            if r >= 2:
+                members = 162
+            else:
+                # all 9 OFFSET states and all 9 DISPLAYBPM states, paired by an index-derived rotation
+                shift = _hash9(c)
                 for t in range(9):
                     u = (t + shift) % 9
                     s = (t % 3) + 3 * (t // 3) + 9 * (u % 3) + 27 * (u // 3)
                     a, b = fixed_dbpm(c, s)
                     evals += judge(cx, kind, ver, r, s, (0, 1), SIM_FIXED, CH_FIXED, a, b)
-                p = r - 2
-                nonabsent = 0
-                while p:
-                    if p % 3:
-                        nonabsent += 1
-                    p //= 3
-                if nonabsent > 2:  # the sparse ones are counted by the part 'sparse-core-all-sides'
-                    nontriv += 18
-            else:
-                for t in range(9):
-                    s = (t % 3) + 9 * (t // 3)
-                    a, b = fixed_dbpm(c, s)
-                    evals += judge(cx, kind, ver, r, s, (0, 1), SIM_FIXED, CH_FIXED, a, b, none_form=t & 1)
-        return Verdict(nontrivial=nontriv > 0, evals=evals, weight=nontriv, labels=("chunk:all-core",))
+                members = 18
+            p = r - 2
+            nonabsent = 0
+            while p:
+                if p % 3:
+                    nonabsent += 1
+                p //= 3
+            if nonabsent > skip_upto:
+                nontriv += members
+        return Verdict(nontrivial=nontriv > 0, evals=evals, weight=nontriv, labels=(f"chunk:{space}:{case['sides']}",))
 
     if kind_ == "one":
         v = case["vals"]
@@ -446,28 +454,17 @@ def check(case):
 # --------------------------------------------------------------------------------------
 # generators
 
-SPARSE_CHUNK = 10  # sparse core configurations per case (x 162 whole-space members each)
-ALL_CHUNK = 1500  # core configurations per case (x 18 whole-space members each)
+def _chunks(space, sides, total, size, skip_upto):
+    def it(shard, nshards):
+        i = 0
+        lo = 0
+        while lo < total:
+            if i % nshards == shard:
+                yield {"kind": "chunk", "space": space, "sides": sides, "lo": lo, "hi": min(lo + size, total), "counted_elsewhere_upto": skip_upto}
+            lo += size
+            i += 1
 
-
-def _sparse_iter(shard, nshards):
-    i = 0
-    lo = 0
-    while lo < NSPARSE:
-        if i % nshards == shard:
-            yield {"kind": "chunk", "space": "sparse", "lo": lo, "hi": min(lo + SPARSE_CHUNK, NSPARSE)}
-        lo += SPARSE_CHUNK
-        i += 1
-
-
-def _all_iter(shard, nshards):
-    i = 0
-    lo = 0
-    while lo < NCORE:
-        if i % nshards == shard:
-            yield {"kind": "chunk", "space": "all", "lo": lo, "hi": min(lo + ALL_CHUNK, NCORE)}
-        lo += ALL_CHUNK
-        i += 1
+    return it
 
 
 def _beat(k):
@@ -607,8 +604,15 @@ def s_one(draw):
 
 def parts(tier):
     q = tier == "quick"
-    out = [{"name": "sparse-core-all-sides", "kind": "enum", "iter": _sparse_iter, "exhaustive": True}]
-    if not q:
-        out.append({"name": "all-core", "kind": "enum", "iter": _all_iter, "exhaustive": True})
+    if q:
+        out = [
+            {"name": "sparse1-core-all-sides", "kind": "enum", "iter": _chunks("sparse1", "full", NSPARSE1, 3, -1), "exhaustive": True},
+            {"name": "sparse2-core", "kind": "enum", "iter": _chunks("sparse2", "rot", NSPARSE, 40, 1), "exhaustive": True},
+        ]
+    else:
+        out = [
+            {"name": "sparse2-core-all-sides", "kind": "enum", "iter": _chunks("sparse2", "full", NSPARSE, 10, -1), "exhaustive": True},
+            {"name": "all-core", "kind": "enum", "iter": _chunks("all", "rot", NCORE, 1500, 2), "exhaustive": True},
+        ]
     out.append({"name": "sampled", "kind": "hypothesis", "strategy": s_one, "examples": (60000 if q else 16 * 45000) // PER_CASE})
     return out
